@@ -60,6 +60,15 @@ type c24Park struct {
 }
 
 var c24Cur atomic.Pointer[c24Hooks]
+
+var (
+	c24ExMu     sync.Mutex
+	c24Examples = map[string]any{} // first witness per violation class, for the evidence file
+)
+
+// set when a scheduler could not be stopped: its goroutines keep running, later goroutine dumps
+// would be ambiguous, so no further history is started
+var c24Fatal atomic.Bool
 var c24HookOnce sync.Once
 
 func c24InstallHooks() {
@@ -227,7 +236,9 @@ func (e *c24Exec) Execute(ctx context.Context, id scheduler.ID, sf, ra time.Time
 	if w.active[id] > 1 {
 		w.overlap = append(w.overlap, fmt.Sprintf("task %d: run for %s started while another run of it is executing", id, sf.UTC().Format(time.RFC3339Nano)))
 	}
-	w.execs = append(w.execs, c24ExecEv{id, sf, ra, w.stamp.Add(1)})
+	if len(w.execs) < 200000 { // a scheduler gone wild must not eat the memory
+		w.execs = append(w.execs, c24ExecEv{id, sf, ra, w.stamp.Add(1)})
+	}
 	var gate chan struct{}
 	if w.holdNext[id] {
 		delete(w.holdNext, id)
@@ -281,7 +292,13 @@ func (w *c24World) fail(class, trigger, problem string) {
 	if len(lg) > 120 {
 		lg = append(append([]string(nil), lg[:20]...), append([]string{"..."}, lg[len(lg)-90:]...)...)
 	}
-	w.r.Violation(class, map[string]string{"trigger": trigger, "clock": "mock"}, c24Wit{History: w.no, Workers: w.workers, Log: append([]string(nil), lg...), Problem: problem})
+	wit := c24Wit{History: w.no, Workers: w.workers, Log: append([]string(nil), lg...), Problem: problem}
+	c24ExMu.Lock()
+	if _, ok := c24Examples[class]; !ok {
+		c24Examples[class] = wit
+	}
+	c24ExMu.Unlock()
+	w.r.Violation(class, map[string]string{"trigger": trigger, "clock": "mock"}, wit)
 }
 
 const c24Watchdog = 20 * time.Second
@@ -348,6 +365,9 @@ func (w *c24World) process(full bool) {
 	}
 	usedDisp := make([]bool, len(disp))
 	for _, e := range execs {
+		if w.violated {
+			break // one report per history
+		}
 		w.r.Event("exec_calls_checked", 1)
 		// the dispatch event of this call: first unused one for the same (task, scheduledFor)
 		dstamp := int64(1) << 62
@@ -592,7 +612,9 @@ func c24RunHistory(r *vkit.Run, no int) {
 		errNext: map[scheduler.ID]string{}, tasks: map[scheduler.ID]*c24Task{}, histWhens: map[int64]bool{}}
 	hk.onDisp = func(id scheduler.ID, next time.Time) {
 		w.mu.Lock()
-		w.disp = append(w.disp, c24ExecEv{id: id, sf: next, stamp: w.stamp.Add(1)})
+		if len(w.disp) < 200000 {
+			w.disp = append(w.disp, c24ExecEv{id: id, sf: next, stamp: w.stamp.Add(1)})
+		}
 		w.mu.Unlock()
 	}
 	c24Cur.Store(hk)
@@ -787,11 +809,15 @@ func c24RunHistory(r *vkit.Run, no int) {
 	go func() { s.Stop(); close(stopped) }()
 	select {
 	case <-stopped:
-	case <-time.After(c24Watchdog):
-		r.Inconclusive("Stop did not return within the watchdog")
+	case <-time.After(c24Watchdog / 2):
+		r.Inconclusive("Stop did not return within the watchdog; remaining histories skipped")
+		c24Fatal.Store(true)
 	}
 	key := strings.Join(w.log, "\n")
-	nontrivial := len(w.execs) >= 3 && len(w.tasks) >= 1 && schedules >= 2
+	w.mu.Lock()
+	nExecs := len(w.execs)
+	w.mu.Unlock()
+	nontrivial := nExecs >= 3 && len(w.tasks) >= 1 && schedules >= 2
 	r.Case(key, nontrivial)
 	r.Event("histories_releases", int64(releases))
 	if r.WantSample() && no%23 == 0 {
@@ -799,7 +825,7 @@ func c24RunHistory(r *vkit.Run, no int) {
 		if len(lg) > 60 {
 			lg = lg[:60]
 		}
-		r.Sample(map[string]any{"history": no, "workers": w.workers, "log": lg, "exec_calls": len(w.execs), "timer_fires": w.hk.fires.Load(), "loop_iterations": w.hk.iters.Load()})
+		r.Sample(map[string]any{"history": no, "workers": w.workers, "log": lg, "exec_calls": nExecs, "timer_fires": w.hk.fires.Load(), "loop_iterations": w.hk.iters.Load()})
 	}
 }
 
@@ -898,6 +924,7 @@ func c24RealClockCase(r *vkit.Run, no int, variant string) {
 	case <-stopped:
 	case <-time.After(c24Watchdog):
 		r.Inconclusive("Stop did not return within the watchdog (real clock)")
+		c24Fatal.Store(true)
 	}
 	if r.WantSample() {
 		r.Sample(map[string]any{"real_clock_case": variant, "log": log})
@@ -912,10 +939,14 @@ func TestC24(t *testing.T) {
 	r.Trust("github.com/influxdata/cron Next", "github.com/benbjohnson/clock mock (driven under the discipline described in the source header)", "runtime.Stack goroutine states")
 	r.Assume("a Release / re-Schedule may leave the timer armed for the old time: one wake-up with nothing to do and a stale but future When() are by design (documented in TreeScheduler's comment)")
 	n := r.N(120, 1500)
-	for i := 0; i < n; i++ {
+	for i := 0; i < n && !c24Fatal.Load(); i++ {
 		c24RunHistory(r, i)
 	}
+	r.Extra("first_witness_by_class", c24Examples)
 	for i, v := range []string{"release_soonest", "reschedule_later", "three_tasks", "release_soonest", "reschedule_later", "three_tasks"} {
+		if c24Fatal.Load() {
+			break
+		}
 		c24RealClockCase(r, i, v)
 	}
 }
